@@ -552,7 +552,7 @@ def run_scenario (sc):
     fired[rid] += len(new)
     nm, ev = new[0]
     if nm != EVENT_OF[r.typ]:
-      fail("wrong-event-class:%s" % tn, "%s raised for a %s reply" % (nm, tn)); continue
+      fail("wrong-event-class", "%s raised after the final part of a %s reply" % (nm, tn)); continue
     try:
       got = [view(r.typ, o) for o in ev.stats] if r.typ in LIST_TYPES else [view(r.typ, ev.stats)]
     except Exception as e:
